@@ -548,8 +548,9 @@ def run_mutants(pid, cds, muts, timeout_ms, jobs, base_results):
         unknowns = []
         for r in per.get(ti, []):
             if r["status"] != "ok":
-                if r["name"] not in base_unsup:
-                    demoted.append(f"{r['name']}: {r['reason'][:120]}")
+                # out of reach under the mutant - or already out of reach on the tree under test (then nothing about
+                # this contract's strength can be concluded from the mutant)
+                demoted.append(f"{r['name']}: {r['reason'][:120]}" + (" (base contract out of reach too)" if r["name"] in base_unsup else ""))
                 continue
             for o in r["obligations"]:
                 if o["kind"] != "canary" and o["status"] == "refuted" and (r["name"], o["label"]) not in base_bad:
